@@ -145,6 +145,13 @@ def team_values(draw, cfg, sizes, tau_eff=None, regimes=REGIMES, allow_zero_sigm
             m = draw(st.sampled_from([-20.0 * beta, 20.0 * beta, 20.0 * beta, -20.0 * beta, 0.0]))
             sg = draw(st.sampled_from([1e-4 * beta, 1e-4 * beta, 0.2 * beta, 10.0 * beta] + ([0.0] if allow_zero_sigma else [])))
             teams.append([[m, sg] for _ in range(k)])
+    elif regime == "max_gap":
+        # the largest standardised gaps the domain admits: whole teams of settled players at opposite ends of the mu range (what the
+        # arguments of exp() and the Gaussian tails are bounded by: up to 16 * 40 beta / (sqrt(2) beta) = 452)
+        teams = []
+        for idx, k in enumerate(sizes):
+            end = (20.0 if idx % 2 == 0 else -20.0) * draw(st.sampled_from([1.0, 1.0, -1.0, 0.0]))
+            teams.append([[end * beta * (1.0 - draw(st.floats(0.0, 0.02))), 10.0 ** draw(st.floats(-4.0, -1.5)) * beta] for _ in range(k)])
     elif regime == "equal_sums":
         # teams of DIFFERENT composition whose totals are exactly equal the way realistic data makes them equal: small integers times a
         # decimal unit ((10, 20) v (15, 15), everyone on 25 with individual sigmas).  Sigmas differ; float equality of the sums may or may
